@@ -121,6 +121,24 @@ pub fn check_geo(prop: &str, g: &GeoCase, rep: &mut Report) {
                 rep.violations.push(viol(prop, "c19.project_onto_not_idempotent", format!("projecting the projection moves it by {again:e} (tol {tol:e})"), g));
             }
         }
+        // pts: n, p, centre, (radius, 0, 0)
+        "intersects_sphere" => {
+            let pl = Plane::new(p[0], p[1]);
+            let sp = Sphere::new(p[2], p[3].x);
+            let got = pl.intersects_sphere(&sp);
+            // distance of the centre from the plane; decided only when it differs from the radius by more than the rounding of
+            // the projection (coordinates of magnitude `mag`) plus a relative margin of 1e-8
+            let d = pl.n.normalize().dot(sp.center - pl.p).abs();
+            let margin = 1e-8 * sp.radius + CU * mag;
+            if (d - sp.radius).abs() <= margin {
+                rep.count("ill_conditioned_arguments", 1);
+                return;
+            }
+            let want = d < sp.radius;
+            if got != want {
+                rep.violations.push(viol(prop, "c19.intersects_sphere", format!("Plane::intersects_sphere is {got} for a sphere of radius {:e} whose centre is {d:e} from the plane", sp.radius), g));
+            }
+        }
         // pts: n1, p1, n2, p2, point
         "project_onto_intersection" => {
             let (a, b) = (Plane::new(p[0], p[1]), Plane::new(p[2], p[3]));
@@ -325,7 +343,7 @@ pub fn check_geo(prop: &str, g: &GeoCase, rep: &mut Report) {
 
 fn gen_geo(r: &mut Rng) -> GeoCase {
     let (scale, off) = setting(r);
-    let kinds = ["intersect_planes", "project_onto", "project_onto_intersection", "signed_volume_tet", "signed_area_tri", "sphere2", "sphere3", "sphere4", "extend"];
+    let kinds = ["intersect_planes", "project_onto", "project_onto_intersection", "signed_volume_tet", "signed_area_tri", "sphere2", "sphere3", "sphere4", "extend", "intersects_sphere"];
     let kind = *r.pick(&kinds);
     let structured = r.below(4) == 0;
     let axis = |r: &mut Rng| *r.pick(&[DVec3::X, DVec3::Y, DVec3::Z, DVec3::NEG_X, DVec3::NEG_Y, DVec3::NEG_Z]);
@@ -353,6 +371,17 @@ fn gen_geo(r: &mut Rng) -> GeoCase {
             v
         }
         "project_onto" => vec![nrm(r), point(r, scale, off), point(r, scale, off)],
+        "intersects_sphere" => {
+            // pts: n, p, centre, (radius, 0, 0): the centre at a distance of 0 .. 2 radii from the plane, every fourth one
+            // within 1e-6 radii of being tangent (on either side)
+            let n = nrm(r);
+            let p0 = point(r, scale, off);
+            let rad = scale * r.range(0.01, 1.);
+            let dist = if r.below(4) == 0 { rad * (1. + r.range(-1e-6, 1e-6)) } else { rad * r.range(0., 2.) };
+            let t = unit(r).cross(n).normalize_or_zero() * scale * r.range(0., 2.);
+            let c = p0 + t + n.normalize() * dist * if r.bool() { 1. } else { -1. };
+            vec![n, p0, c, DVec3::new(rad, 0., 0.)]
+        }
         "project_onto_intersection" => {
             let n1 = nrm(r);
             // every third pair is nearly parallel (two faces of a cell whose neighbours are a close pair of generators)
